@@ -149,6 +149,7 @@ def sensitivity(a):
                                capture_output=True, text=True)
             if p.returncode != 0:
                 results.append((m["id"], "PATCH-FAILED", p.stdout[-200:] + p.stderr[-200:]))
+                print(results[-1], flush=True)
                 continue
             caught = []
             for prop in m["properties"]:
